@@ -91,6 +91,53 @@ theorem C14_draw_removes (d i j : Nat) (hd : d < 2^64) (hi : i < popW 64 d) :
   · have : d.testBit j = false := Nat.testBit_lt_two_pow (Nat.lt_of_lt_of_le hd (Nat.pow_le_pow_right (by omega) (by omega)))
     simp [this]
 
+/-- **Uniformity in counting form**: for every card `c` of the deck exactly one index `i < n`
+    draws it — so with the index uniform on `{0,…,n-1}` each remaining card has probability `1/n`. -/
+theorem C14_draw_exactly_one_index (d c : Nat) (hc : c < 64) (hb : d.testBit c = true) :
+    ((List.range (popW 64 d)).filter (fun i => (drawAt d i).1 == c)).length = 1 := by
+  obtain ⟨hlt, heq⟩ := C14_draw_surjective d c hc hb
+  have key : ∀ i, i < popW 64 d → (((drawAt d i).1 == c) = true ↔ i = popW c d) := by
+    intro i hi
+    constructor
+    · intro h
+      have h' : (drawAt d i).1 = c := by simpa using h
+      exact C14_draw_injective d i (popW c d) hi hlt (by rw [h', heq])
+    · intro h; subst h; simpa using heq
+  have : (List.range (popW 64 d)).filter (fun i => (drawAt d i).1 == c)
+       = (List.range (popW 64 d)).filter (fun i => i == popW c d) := by
+    apply List.filter_congr
+    intro i hi
+    have hi' : i < popW 64 d := List.mem_range.mp hi
+    have := key i hi'
+    by_cases h : i = popW c d
+    · subst h; simpa using heq
+    · have h1 : ((drawAt d i).1 == c) = false := by
+        cases hh : ((drawAt d i).1 == c) with
+        | false => rfl
+        | true => exact absurd (this.mp hh) h
+      simp [h1, h]
+  rw [this]
+  -- exactly one element of `range n` equals a given `k < n`
+  have cnt : ∀ n k, k < n → ((List.range n).filter (fun i => i == k)).length = 1 := by
+    intro n
+    induction n with
+    | zero => intro k hk; omega
+    | succ n ih =>
+      intro k hk
+      rw [List.range_succ, List.filter_append, List.length_append]
+      by_cases h : k < n
+      · have hne : (n == k) = false := by simp; omega
+        simp [ih k h, hne]
+      · have hk' : k = n := by omega
+        subst hk'
+        have : (List.range k).filter (fun i => i == k) = [] := by
+          apply List.filter_eq_nil_iff.mpr
+          intro i hi
+          have := List.mem_range.mp hi
+          simp; omega
+        simp [this]
+  exact cnt _ _ hlt
+
 /-- The whole `draw`: whatever raw random value is supplied, a card of the deck comes out. -/
 theorem C14_draw_total (d r : Nat) (hne : 0 < popW 64 d) :
     d.testBit (draw d r).1 = true :=
